@@ -195,7 +195,7 @@ prop("C07", [
 
 prop("C08", [
     dict(engine="verus", unit="acl"),
-    dict(engine="kani", sets=["config_prefix"]),
+    dict(engine="kani", sets=["config_prefix", "acl_check"]),
 ], explanation="require_permission grants <=> the first matching rule exists and grants the permission (Acl::check, check_authenticated via R17d/R17e, require_permission); "
                "entry points: the welcome page, /metrics, the lease listing and the DNS handler chain behind DnsAclHandler are reachable only with the matching permission token (emission-point preconditions), refusal => 403 / RefusedByAcl; "
                "prefix containment against the written-prefix spec, all addresses and prefix lengths (Kani complete)",
